@@ -1256,6 +1256,117 @@ func ruleLogLevels(c *Ctx) {
 	}
 }
 
+// ruleVersionListParse — the offered-version list is parsed element by
+// element: an element that does not parse is skipped, it never ends the loop
+// (C02 quantifies over partly invalid lists), and every element that parses is
+// appended to the list the negotiation uses.
+func ruleVersionListParse(c *Ctx) {
+	p := c.P
+	f := p.Fn("protocolVersion")
+	if f == nil {
+		c.R.Undecided("R-NEG", "protocolVersion", "anchor", "the negotiation function was not found")
+		return
+	}
+	info := f.Pkg.TypesInfo
+	var loop *ast.RangeStmt
+	var atoi *ast.CallExpr
+	ast.Inspect(f.Body, func(x ast.Node) bool {
+		rs, ok := x.(*ast.RangeStmt)
+		if !ok {
+			return true
+		}
+		ast.Inspect(rs.Body, func(y ast.Node) bool {
+			if call, ok := y.(*ast.CallExpr); ok {
+				switch p.CalleeName(f, call) {
+				case "strconv.Atoi", "strconv.ParseInt", "strconv.ParseUint":
+					if loop == nil {
+						loop, atoi = rs, call
+					}
+				}
+			}
+			return true
+		})
+		return loop == nil
+	})
+	if loop == nil {
+		c.R.Undecided("R-NEG", f.Name, "version list parse loop", "no loop converting the elements of the offered list with strconv found")
+		return
+	}
+	errv, _ := func() (*types.Var, bool) {
+		as, ok := p.Parent(atoi).(*ast.AssignStmt)
+		if !ok {
+			return nil, false
+		}
+		for _, l := range as.Lhs {
+			if v, ok := identObj(info, l).(*types.Var); ok && isErrorType(v.Type()) {
+				return v, true
+			}
+		}
+		return nil, false
+	}()
+	if errv == nil {
+		c.R.Violate("R-NEG", p.Pos(atoi), f.Name, "invalid list element skipped", "the conversion error of a list element is not bound: an invalid element is taken as version 0", nil)
+		return
+	}
+	// the failing branch: block executed when errv != nil
+	leaves := ""
+	ast.Inspect(loop.Body, func(x ast.Node) bool {
+		ifs, ok := x.(*ast.IfStmt)
+		if !ok {
+			return true
+		}
+		be, ok := ast.Unparen(ifs.Cond).(*ast.BinaryExpr)
+		if !ok || identObj(info, be.X) != errv || !isNilIdent(info, be.Y) {
+			return true
+		}
+		var failing ast.Stmt
+		if be.Op == token.NEQ {
+			failing = ifs.Body
+		} else if be.Op == token.EQL && ifs.Else != nil {
+			failing = ifs.Else
+		}
+		if failing == nil {
+			return true
+		}
+		depth := 0 // nesting inside switch/select/for within the failing block: a bare break there is local
+		var walk func(n ast.Node)
+		walk = func(n ast.Node) {
+			ast.Inspect(n, func(y ast.Node) bool {
+				switch st := y.(type) {
+				case *ast.FuncLit:
+					return false
+				case *ast.ForStmt, *ast.RangeStmt, *ast.SwitchStmt, *ast.TypeSwitchStmt, *ast.SelectStmt:
+					if y != n {
+						depth++
+						walk(y)
+						depth--
+						return false
+					}
+				case *ast.ReturnStmt:
+					leaves = "returns"
+				case *ast.BranchStmt:
+					if st.Tok == token.GOTO || (st.Tok == token.BREAK && (depth == 0 || st.Label != nil)) {
+						leaves = "breaks out of the loop"
+					}
+				case *ast.CallExpr:
+					switch p.CalleeName(f, st) {
+					case "os.Exit", "builtin.panic", "log.Fatal", "log.Fatalf":
+						leaves = "terminates"
+					}
+				}
+				return true
+			})
+		}
+		walk(failing)
+		return true
+	})
+	if leaves != "" {
+		c.R.Violate("R-NEG", p.Pos(atoi), f.Name, "invalid list element skipped", "on an element that does not parse the plugin "+leaves+" instead of going on with the next element: the versions after it are never considered, so the highest common version can be missed", nil)
+	} else {
+		c.R.Hold("R-NEG", p.Pos(atoi), f.Name, "invalid list element skipped", "the failing branch of the element conversion neither returns nor leaves the loop", true)
+	}
+}
+
 // descendingComparator: func(i, j int) bool { return list[i] > list[j] } (sort.Slice)
 // or func(a, b int) int { return b - a } / cmp.Compare(b, a) (slices.SortFunc).
 func descendingComparator(info *types.Info, fl *ast.FuncLit, list *types.Var, sorter string) bool {
